@@ -25,51 +25,67 @@ ASSUMPTIONS = ["np.linalg.solve(A, b) returns the unique solution for non-singul
 IV = "ivector:"
 
 
+def _acc_store(f, attr):
+    for st, t, v, k in stores(f):
+        if isinstance(t, ast.Attribute) and t.attr == attr and v is not None:
+            return st, v
+    return None, None
+
+
 def check_fnorm(P, R):
-    for key, local in ((IV + "compute_tt_sigma_inv_fnorm", "fnorm"), (IV + "e_step", "Fnorm")):
-        f = P.func(key)
-        R.analysed(f)
-        p = pol.Pol(P, f)
-        t = None
-        for st, tt, v, k in stores(f):
-            if isinstance(tt, ast.Name) and tt.id == local:
-                t = list(dict.fromkeys(p.terms(v, p.du.stmt_of(st))))
-        if t is None:
-            R.violation("POL.fnorm", key, f"{local} = F - N m", "the centred first-order statistics are no longer computed here")
-            continue
-        pol.check_row(R, "POL.fnorm", key, t, dict(atoms=["sum_px"], sign="+", why="first-order statistics"))
-        pol.check_row(R, "POL.fnorm", key, t, dict(atoms=["ubm_means", "ubm.means", "means"], sign="-", with_=["n"], why="N times the UBM mean is subtracted"))
-    f = P.func(IV + "e_step")
+    """Centred statistics, identified by where they flow (not by the names of locals):
+    - the value returned by compute_tt_sigma_inv_fnorm is T'S^-1 (F - N m);
+    - the value accumulated into stats.fnorm_sigma_wij is (F - N m) E[w]';
+    - the value accumulated into stats.snormij is S - 2 F m + N m^2."""
+    f = P.func(IV + "compute_tt_sigma_inv_fnorm")
+    R.analysed(f)
     p = pol.Pol(P, f)
-    for st, tt, v, k in stores(f):
-        if isinstance(tt, ast.Name) and tt.id == "Snorm":
-            t = list(dict.fromkeys(p.terms(v, p.du.stmt_of(st))))
-            pol.check_row(R, "POL.snorm", f.key, t, dict(atoms=["sum_pxx"], sign="+", why="second-order statistics"))
-            cross = [x for x in t if any("sum_px" in a and "sum_pxx" not in a for a in x[1])]
-            sq = [x for x in t if any(a.endswith(".n") for a in x[1])]
-            R.check(bool(cross) and all(s == -1 for s, a in cross), "POL.snorm", f.key, "- 2 F m", pol.fmt_terms(cross), f"the cross term of Snorm is not subtracted: {pol.fmt_terms(cross) or 'missing'}", st.lineno)
-            R.check(bool(sq) and all(s == 1 for s, a in sq), "POL.snorm", f.key, "+ N m^2", pol.fmt_terms(sq), f"the N m^2 term of Snorm is not added: {pol.fmt_terms(sq) or 'missing'}", st.lineno)
+    t = list(dict.fromkeys(p.value_terms()))
+    pol.check_row(R, "POL.fnorm", f.key, t, dict(atoms=["sum_px"], sign="+", why="first-order statistics"))
+    pol.check_row(R, "POL.fnorm", f.key, t, dict(atoms=[f.value_params[0], "ubm.means", "means"], sign="-", with_=["n"], why="N times the UBM mean is subtracted"))
+    g = P.func(IV + "e_step")
+    R.analysed(g)
+    gp = pol.Pol(P, g)
+    st, v = _acc_store(g, "fnorm_sigma_wij")
+    if v is None:
+        R.violation("POL.fnorm", g.key, "stats.fnorm_sigma_wij accumulation", "the Fnorm E[w]' accumulator is no longer updated")
+    else:
+        t = [x for x in dict.fromkeys(gp.terms(v, gp.du.stmt_of(st))) if not any("fnorm_sigma_wij" in a for a in x[1])]
+        pol.check_row(R, "POL.fnorm", g.key, t, dict(atoms=["sum_px"], sign="+", why="first-order statistics"))
+        pol.check_row(R, "POL.fnorm", g.key, t, dict(atoms=["ubm.means", "means"], sign="-", with_=["n"], why="N times the UBM mean is subtracted"))
+    st, v = _acc_store(g, "snormij")
+    if v is None:
+        R.violation("POL.snorm", g.key, "stats.snormij accumulation", "the Snorm accumulator is no longer updated")
+    else:
+        t = [x for x in dict.fromkeys(gp.terms(v, gp.du.stmt_of(st))) if not any("snormij" in a for a in x[1])]
+        pol.check_row(R, "POL.snorm", g.key, t, dict(atoms=["sum_pxx"], sign="+", why="second-order statistics"))
+        cross = [x for x in t if any(a.endswith(".sum_px") for a in x[1])]
+        sq = [x for x in t if any(a.endswith(".n") for a in x[1])]
+        R.check(bool(cross) and all(s_ == -1 for s_, a in cross), "POL.snorm", g.key, "- 2 F m", pol.fmt_terms(cross), f"the cross term of Snorm is not subtracted: {pol.fmt_terms(cross) or 'missing'}", st.lineno)
+        R.check(bool(sq) and all(s_ == 1 for s_, a in sq), "POL.snorm", g.key, "+ N m^2", pol.fmt_terms(sq), f"the N m^2 term of Snorm is not added: {pol.fmt_terms(sq) or 'missing'}", st.lineno)
 
 
 def check_precision(P, R):
     f = P.func(IV + "compute_id_tt_sigma_inv_t")
     R.analysed(f)
     p = pol.Pol(P, f)
-    sp = f.value_params[0]
     for r in [x for x in walk_no_nested(f.node) if isinstance(x, ast.Return) and x.value is not None]:
         t = list(dict.fromkeys(p.terms(r.value, r)))
         ident = [x for x in t if x[0] == 1 and not x[1]]
         dat = [x for x in t if x[1]]
         R.check(bool(ident), "PREC.prior", f.key, "identity term of the posterior precision", "standard-normal prior", "the identity is missing from the i-vector posterior precision", r.lineno)
-        R.check(bool(dat) and all(s == 1 for s, a in dat) and all(any(x.endswith(".n") for x in a) for s, a in dat), "PREC.data", f.key, "+ sum_c N_c T_c' S_c^-1 T_c", pol.fmt_terms(dat)[:80], f"the data term of the precision is not a positive count-weighted term: {pol.fmt_terms(dat)}", r.lineno)
+        R.check(bool(dat) and all(s_ == 1 for s_, a in dat) and all(any(x.endswith(".n") for x in a) for s_, a in dat), "PREC.data", f.key, "+ sum_c N_c T_c' S_c^-1 T_c", pol.fmt_terms(dat)[:80], f"the data term of the precision is not a positive count-weighted term: {pol.fmt_terms(dat)}", r.lineno)
+    # E[w w'] accumulated into nij_sigma_wij2: N * (posterior covariance + mean outer product)
     g = P.func(IV + "e_step")
     gp = pol.Pol(P, g)
-    for st, tt, v, k in stores(g):
-        if isinstance(tt, ast.Name) and tt.id == "sigma_w_ij2":
-            t = list(dict.fromkeys(gp.terms(v, gp.du.stmt_of(st))))
-            R.check(len(t) >= 2 and all(s == 1 for s, a in t), "PREC.second-moment", g.key, f"E[w w'] = {src(v)[:60]}", "posterior covariance + outer product of the mean", f"the second moment of w is not covariance + mean outer product: {pol.fmt_terms(t)}", st.lineno)
-            c = cone(gp.du, v, gp.du.stmt_of(st), interproc=False)
-            R.check(c.calls_any("inv") and c.calls_any("outer", "einsum", "multiply", "dot"), "PREC.second-moment", g.key, "depends on inv(precision) and on the posterior mean", "", "E[w w'] does not combine the inverse precision with the posterior mean", st.lineno)
+    st, v = _acc_store(g, "nij_sigma_wij2")
+    if v is None:
+        R.violation("PREC.second-moment", g.key, "stats.nij_sigma_wij2 accumulation", "the N E[ww'] accumulator is no longer updated")
+        return
+    t = [x for x in dict.fromkeys(gp.terms(v, gp.du.stmt_of(st))) if not any("nij_sigma_wij2" in a for a in x[1])]
+    cov = [x for x in t if any("inv" in a for a in x[1])]
+    R.check(bool(t) and all(s_ == 1 for s_, a in t) and len(t) >= 2 and bool(cov), "PREC.second-moment", g.key, f"N E[w w'] = {pol.fmt_terms(t)[:90]}", "N * (posterior covariance + outer product of the mean), all positive", f"the accumulated second moment is not N * (inverse precision + mean outer product): {pol.fmt_terms(t)[:120]}", st.lineno)
+    R.check(all(any(a.endswith(".n") for a in x[1]) for x in t), "PREC.second-moment", g.key, "weighted by the counts", "", "E[w w'] is not weighted by the counts", st.lineno)
 
 
 def _kernel_calls(P, f):
@@ -165,20 +181,17 @@ def run(P, R, tier):
     # E-step accumulators: N E[ww'], Fnorm E[w]', Snorm, N
     e = P.func(IV + "e_step")
     edu = get_defuse(e, P)
-    need = {"nij_sigma_wij2": ("sigma_w_ij2", "Nij"), "fnorm_sigma_wij": ("Fnorm", "sigma_w_ij"), "snormij": ("Snorm",), "nij": ("Nij",)}
+    ep = pol.Pol(P, e)
+    need = {"nij_sigma_wij2": ("n", "inv"), "fnorm_sigma_wij": ("sum_px", "inv"), "snormij": ("sum_pxx",), "nij": ("n",)}
     for st, t, v, k in stores(e):
         if isinstance(t, ast.Attribute) and t.attr in need:
-            c = cone(edu, v, edu.stmt_of(st), interproc=False)
-            got = {d.var for d in c.defs}
-            # a local only counts when it reaches the value as data (not merely through *_like shape helpers)
-            shape_only = set()
-            for n_ in c.nodes:
-                if isinstance(n_, ast.Call) and src(n_.func).split(".")[-1] in ("ones_like", "zeros_like", "empty_like", "shape", "full_like"):
-                    shape_only |= {x.id for a in n_.args for x in ast.walk(a) if isinstance(x, ast.Name)}
-            direct = {x.id for x in ast.walk(v) if isinstance(x, ast.Name)}
-            for nm in need[t.attr]:
-                used = nm in got and not (nm in shape_only and not any(isinstance(x, ast.Name) and x.id == nm and not _inside_like(x) for x in ast.walk(v)))
-                R.check(used and t.attr in {a.split(".")[-1] for a in c.attrs}, "DEP.accumulators", e.key, f"{t.attr} accumulates {nm}", "", f"accumulator {t.attr} does not accumulate {nm} (or does not add to its previous value)", st.lineno)
+            terms = list(dict.fromkeys(ep.terms(v, edu.stmt_of(st))))
+            prev = [x for x in terms if any(a.endswith("." + t.attr) for a in x[1]) and len(x[1]) == 1]
+            new_t = [x for x in terms if x not in prev]
+            R.check(bool(prev) and all(s_ == 1 for s_, a in prev), "DEP.accumulators", e.key, f"{t.attr} adds to its previous value", "", f"accumulator {t.attr} is overwritten instead of accumulated over the samples", st.lineno)
+            for nd in need[t.attr]:
+                got = any(any((a.endswith("." + nd) or nd in a) for a in x[1]) for x in new_t)
+                R.check(got, "DEP.accumulators", e.key, f"{t.attr} accumulates a term with {nd}", "", f"accumulator {t.attr} lacks its {nd} factor ({pol.fmt_terms(new_t)[:90]})", st.lineno)
     # M-step: T solves A X = B per component from the two accumulators
     f = P.func(IV + "m_step")
     du = get_defuse(f, P)
